@@ -2,6 +2,7 @@ package main
 
 import (
 	"fmt"
+	"go/constant"
 	"go/token"
 	"go/types"
 	"sort"
@@ -1122,5 +1123,64 @@ func ruleOccursCheckAlways(c *Ctx, r *Report) {
 		r.bad(rule, key, c.at(bad), desc, "the plain unification is called: a pair of terms that shares no variable can still have only an infinite unifier (f(X, X) = f(Y, g(Y))), which the predicate must refuse")
 	} else {
 		r.ok(rule, key, c.Pos(fn.Pos()), desc, fmt.Sprintf("%d static calls, none of the plain unification", ncalls), true)
+	}
+}
+
+// ---------------------------------------------------------------------------
+// R-UNIFY-FAILS-IN-ARMS (C01, C02; added after seed C01j): two terms fail to unify for one of three reasons - the
+// kinds do not match, names or arities differ, or a pair of arguments fails. In Env.unify every return of the
+// constant false lies inside the case analysis on the resolved operands: its block carries a fact from a type
+// test of a resolved operand. A failure decided before that analysis (a pre-test of list lengths) has to redo the
+// unifier's reasoning about representations in a few lines - and gets [a,b|T] with T = [] wrong.
+func ruleUnifyFailsInArms(c *Ctx, r *Report) {
+	const rule = "R-UNIFY-FAILS-IN-ARMS"
+	desc := "the unifier reports failure only from inside its case analysis on the resolved operands"
+	fn := c.method("Env", "unify")
+	if fn == nil {
+		r.undecided(rule, "anchor:Env.unify", "-", desc, "not found")
+		return
+	}
+	n := 0
+	eachInstr(fn, func(in ssa.Instruction) {
+		ret, ok := in.(*ssa.Return)
+		if !ok || len(ret.Results) != 2 {
+			return
+		}
+		k, isConst := ret.Results[1].(*ssa.Const)
+		if !isConst || k.Value == nil || constant.BoolVal(k.Value) {
+			return
+		}
+		n++
+		key := fmt.Sprintf("%s/failure#%d", fname(fn), n)
+		inArms := false
+		for f := range c.factsAt(in.Block()) {
+			if e, ok := f.cond.(*ssa.Extract); ok && e.Index == 1 {
+				if _, ok := e.Tuple.(*ssa.TypeAssert); ok {
+					inArms = true
+				}
+			}
+		}
+		// ... and is decided by the unifier's own comparisons (kinds, names, arities, a pair of arguments, the occurs
+		// check), not by a helper predicate that judges the two terms on its own
+		helper := ""
+		for f := range c.guardsOf(fn).in[in.Block()] {
+			if call, ok := f.cond.(*ssa.Call); ok && f.pol {
+				if callee := call.Call.StaticCallee(); callee != nil && c.isLibPkg(funcPkg(callee)) && c.stableFuncName(callee) != "contains" {
+					helper = callee.Name()
+				}
+			}
+		}
+		if inArms && helper != "" {
+			r.bad(rule, key, c.at(in), desc, "failure is decided by the helper predicate "+helper+", not by a comparison of kinds, names, arities or arguments: a pre-test that judges the two terms on its own (a count of list elements) gets representations wrong - [a,b|T] with T = [] no longer unifies with [_, _]")
+			return
+		}
+		if inArms {
+			r.ok(rule, key, c.at(in), desc, "under a type test of an operand", true)
+		} else {
+			r.bad(rule, key, c.at(in), desc, "failure is returned where no type test of an operand has been made: a pre-test outside the case analysis decides unifiability on its own, and what it gets wrong (a partial list whose tail is bound to []) makes unifiable terms fail")
+		}
+	})
+	if n == 0 {
+		r.undecided(rule, fname(fn)+"/failures", c.Pos(fn.Pos()), desc, "no return of the constant false found")
 	}
 }
